@@ -1,3 +1,4 @@
+import Pocket.Lemmas.FromSourcePreds
 import Pocket.Lemmas.FromSourceKeys
 import Pocket.Lemmas.KeysTag
 import Pocket.Lemmas.FromSourceConsts
@@ -275,5 +276,10 @@ theorem iter_bounds_from_source (author value : Bytes) (kind letter since «unti
     (Src.ktcIterLo kind letter value since «until» = keyKtc kind letter value «until» zeros32 ∧
       Src.ktcIterHi kind letter value since «until» = keyKtc kind letter value since ffs32 ∧ Src.ktcIterInclusive = (true, true)) :=
   Pocket.iter_bounds_from_source author value kind letter since «until»
+
+/-- the scrape gate the theorem `scrape_gate` is about is the one `find_events` computes today -/
+theorem scrape_gate_from_source (f : FilterRec) (allow : Bool) (allowLimit allowSecs now : Nat) :
+    Src.scrapeAllow allow f.limit allowLimit allowSecs f.since f.until now = scrapeAllowed f allow allowLimit allowSecs now :=
+  Pocket.scrape_gate_from_source f allow allowLimit allowSecs now
 
 end Pocket.C05
